@@ -60,7 +60,7 @@ def check_C01(run):
           dict(name='mc-c01-2k', consts=dict(Keys='{1, 2}', Metas='{0}', MaxRecs='0'), max_ops=2 if q else 3, max_blob=2,
                acts=['write', 'delete', 'close_active', 'restore_active', 'dump_idx', 'restart'], damages=('keep', 'lose'),
                timeout=3600),
-          dict(name='mc-c01-1k', consts=dict(Keys='{1}', Metas='{0}', MaxRecs='0'), max_ops=3 if q else 5, max_blob=2,
+          dict(name='mc-c01-1k', consts=dict(Keys='{1}', Metas='{0}', MaxRecs='0'), max_ops=3 if q else 4, max_blob=2,
                acts=['write', 'delete', 'close_active', 'dump_idx'], timeout=3600)]
     suites = [
         dict(name='2k-switch', consts=dict(Keys='{1, 2}', MaxTs='2'), genlen=4,
@@ -70,10 +70,10 @@ def check_C01(run):
         dict(name='1k-deep', consts=dict(Keys='{1}', MaxTs='2'), genlen=6 if q else 7,
              acts=['write', 'delete', 'close_active', 'restart'],
              restarts_set=store.restarts(gs=(True,), lazies=(False,), dmgs=('keep', 'lose')), nkeys=1,
-             sample=(1, 120) if q else (1, 4)),
+             sample=(1, 120) if q else (1, 8)),
         dict(name='sim', consts=dict(Keys='{1, 2}', MaxTs='3', Metas='{0, 1}'), genlen=24,
              acts=['write', 'delete', 'restart', 'force_update', 'free_excess'] + LIFE3,
-             restarts_set=store.restarts(), nkeys=2, simulate=400 if q else 20000, workers=1 if q else 8),
+             restarts_set=store.restarts(), nkeys=2, simulate=400 if q else 6000, workers=1 if q else 8),
     ]
     return store_check(run, mc, suites)
 
@@ -101,11 +101,11 @@ def check_C02(run):
         dict(name='sim', consts=dict(Keys='{1, 2}', MaxTs='3', Metas='{0, 1, 2}'), genlen=24,
              acts=['write', 'delete', 'restart', 'force_update'] + LIFE3,
              restarts_set=store.restarts(dmgs=('keep', 'lose')), nkeys=2,
-             simulate=300 if q else 20000, workers=1 if q else 8),
+             simulate=300 if q else 6000, workers=1 if q else 8),
         dict(name='sim-nodup', consts=dict(Keys='{1, 2}', MaxTs='3', Metas='{0, 1, 2}', AllowDup='FALSE'), genlen=20,
              acts=['write', 'delete', 'restart'] + LIFE3, hcfg_overrides=dict(allow_dup=False),
              restarts_set=store.restarts(dmgs=('keep',)), nkeys=2,
-             simulate=150 if q else 10000, workers=1 if q else 8),
+             simulate=150 if q else 4000, workers=1 if q else 8),
     ]
     return store_check(run, mc, suites)
 
@@ -131,7 +131,7 @@ def check_C03(run):
              restarts_set=store.restarts(dmgs=('keep', 'stale')), nkeys=1, sample=(1, 10) if q else (1, 1)),
         dict(name='sim', consts=dict(Keys='{1, 2}', MaxTs='3', Metas='{0, 1}'), genlen=24,
              acts=['write', 'delete', 'restart', 'force_update', 'create_active', 'close_active', 'restore_active'],
-             restarts_set=store.restarts(), nkeys=2, simulate=300 if q else 20000, workers=1 if q else 8),
+             restarts_set=store.restarts(), nkeys=2, simulate=300 if q else 6000, workers=1 if q else 8),
     ]
 
     def forced(run, eng):
@@ -179,7 +179,7 @@ def check_C04(run):
              sample=(1, 1)),
         dict(name='sim', consts=dict(Keys='{1, 2}', MaxTs='3', Metas='{0, 1}', OffloadLevels='{0, 1, 2}'), genlen=30,
              acts=['write', 'delete'] + LIFE_ALL, preds=('always', 'never', 'ifactive'), nkeys=2,
-             simulate=300 if q else 20000, workers=1 if q else 8),
+             simulate=300 if q else 6000, workers=1 if q else 8),
     ]
     return store_check(run, mc, suites)
 
@@ -306,7 +306,7 @@ def check_C15(run):
              restarts_set=store.restarts(gs=(True,), dmgs=('keep',)), nkeys=1, sample=(1, 20) if q else (1, 2)),
         dict(name='sim', consts=dict(Keys='{1, 2}', MaxTs='2', Metas='{0, 1}'), genlen=30,
              acts=['write', 'delete', 'restart'] + LIFE_ALL[:8], preds=('always', 'ifactive'), nkeys=2,
-             restarts_set=store.restarts(dmgs=('keep', 'lose')), simulate=300 if q else 20000, workers=1 if q else 8),
+             restarts_set=store.restarts(dmgs=('keep', 'lose')), simulate=300 if q else 6000, workers=1 if q else 8),
     ]
     return store_check(run, mc, suites)
 
@@ -437,7 +437,7 @@ def check_C12(run):
         dict(name='sim', consts=dict(Keys='{1, 2}', MaxTs='3', Metas='{0, 1}', Sizes='{"s", "z0", "e4k+"}'), genlen=30,
              acts=['write', 'delete', 'fsync', 'restart', 'force_update', 'free_excess'] + LIFE3,
              restarts_set=store.restarts(dmgs=('keep', 'lose')), nkeys=2,
-             simulate=200 if q else 10000, workers=1 if q else 8),
+             simulate=200 if q else 4000, workers=1 if q else 8),
     ]
     conc = [dict(clients=16, ops=60 if q else 400, cfg=dict(rt='mt', ks=8, bloom='small', group=2, dirty_limit=200, max_recs=60)),
             dict(clients=24, ops=40 if q else 300, cfg=dict(rt='ct', ks=8, bloom='off', group=2, dirty_limit=0)),
@@ -460,7 +460,7 @@ def check_C07(run):
              restarts_set=store.restarts(gs=(True,), dmgs=('keep',)), nkeys=1, sample=(1, 12) if q else (1, 1)),
         dict(name='sim', consts=dict(Keys='{1, 2}', MaxTs='3', Metas='{0, 1}', OffloadLevels='{0, 1}'), genlen=30,
              acts=['write', 'delete', 'restart', 'restart_corrupt'] + LIFE_ALL, preds=('always', 'ifactive'), nkeys=2,
-             restarts_set=store.restarts(), simulate=200 if q else 10000, workers=1 if q else 8),
+             restarts_set=store.restarts(), simulate=200 if q else 4000, workers=1 if q else 8),
     ]
     # blob files under concurrency: several clients and the worker create, close, restore and replace the active blob
     # while data operations run; the complete file-operation trace must still be one PearlIO allows (a blob id is
@@ -538,7 +538,7 @@ def check_C10(run):
              restarts_set=store.restarts(gs=(True,), dmgs=('keep', 'lose')), nkeys=2, sample=(1, 30) if q else (1, 3)),
         dict(name='sim', consts=dict(Keys='{1, 2, 3, 4}', MaxTs='2', OffloadLevels='{0, 1, 2, 3}'), genlen=40,
              acts=['write', 'delete', 'close_active', 'restore_active', 'create_active', 'force_update', 'offload', 'restart', 'free_excess'],
-             restarts_set=store.restarts(dmgs=('keep', 'lose')), nkeys=4, simulate=250 if q else 10000, workers=1 if q else 8),
+             restarts_set=store.restarts(dmgs=('keep', 'lose')), nkeys=4, simulate=250 if q else 4000, workers=1 if q else 8),
     ]
     for s in suites:
         s = dict(s)
